@@ -17,6 +17,9 @@ def run(tier, seed):
         cp.STD_ASSUME + ['step kernel: the semantic values of the handle range over 0..15 (arbitrary 32-bit values make the equivalence of two multiplier chains SAT-hard); the stacks are a harness class with a '
                          'numeric height < 2^40 and an 8-slot window around the top, so the cvector / std::vector operations themselves are covered by the exact-length queries only'],
         finish=False, R=R, defer=cases)
+    # (3) rules WITHOUT functor with several right-side symbols: aggregate value type constructed from the right-side values in order
+    cp.run_parse_property('C02', tier, seed, [(d['dflt'], [3] if tier == 'quick' else [2, 3, 4])], ['accept', 'value'], '', [], ['aggregate value type for functor-less rules: one argument = that value, several = ordered fold'],
+                          finish=False, R=R, defer=cases, variant='agg', tag='g')
     return cp.run_deferred(R, tier, cases,
         'step kernel: one reduce step of the real driver from an arbitrary stack height < 2^40 - the functor receives exactly the handle (top n slots, right-side order), n entries are popped, the goto state is pushed; '
         'exact-length queries: one per (grammar unit, input length): for every byte string the returned value, the sequence of rule functor calls, and the term values / positions handed to functors equal the '
